@@ -1,6 +1,7 @@
 package node
 
 import (
+	"bytes"
 	"crypto/sha256"
 	"encoding/hex"
 	"encoding/json"
@@ -118,7 +119,8 @@ func Program(kind int, arg uint64) []byte {
 		return c
 	}
 	switch kind % 8 {
-	case 0: // store + log
+	case 0: // store + log (and scribble over memory it never reads)
+		c.PushBytes(bytes.Repeat([]byte{0xAB}, 32)).Push(0x300).Op(evmasm.MSTORE)
 		c.Sstore(1, arg+1).Log1(0xaa, arg).Op(evmasm.STOP)
 	case 1: // store then revert
 		c.Sstore(2, arg+7).Revert()
@@ -131,7 +133,8 @@ func Program(kind int, arg uint64) []byte {
 		c.Op(evmasm.CALLER, evmasm.SELFDESTRUCT)
 	case 5: // self-destruct to itself
 		c.Op(evmasm.ADDRESS, evmasm.SELFDESTRUCT)
-	case 6: // counter: slot0++ and two logs
+	case 6: // counter: slot0++ and two logs; first it stores a word of memory it never wrote (fresh memory reads as zero)
+		c.Push(0x300).Op(evmasm.MLOAD).Push(5).Op(evmasm.SSTORE)
 		c.Push(0).Op(evmasm.SLOAD).Push(1).Op(evmasm.ADD).Push(0).Op(evmasm.SSTORE).Log1(1, arg).Log1(2, arg+1).Op(evmasm.STOP)
 	default: // invalid opcode after a store
 		c.Sstore(9, 9).Op(evmasm.INVALID)
